@@ -466,6 +466,7 @@ func (e *Engine) singleAssignment(closure *ssa.Function, fv *ssa.FreeVar) bool {
 
 type Effects struct {
 	all    bool
+	allSrc [][]string // one entry per source of `all`: the struct types that source preserves
 	heaps  map[string]bool
 	sorts  map[string]string
 	cells  map[*ssa.Alloc]bool
@@ -477,9 +478,38 @@ func newEffects() *Effects {
 	return &Effects{heaps: map[string]bool{}, sorts: map[string]string{}, cells: map[*ssa.Alloc]bool{}, ranges: map[string]bool{}, ghost: map[string]bool{}}
 }
 
+func (a *Effects) setAll(preserve []string) {
+	a.all = true
+	a.allSrc = append(a.allSrc, preserve)
+}
+
+// preserved: struct types preserved by every source of `all`.
+func (a *Effects) preserved() []string {
+	if len(a.allSrc) == 0 {
+		return nil
+	}
+	var out []string
+	for _, t := range a.allSrc[0] {
+		inAll := true
+		for _, other := range a.allSrc[1:] {
+			if !contains(other, t) {
+				inAll = false
+			}
+		}
+		if inAll {
+			out = append(out, t)
+		}
+	}
+	return out
+}
+
 func (a *Effects) merge(b *Effects) {
 	if b.all {
 		a.all = true
+		a.allSrc = append(a.allSrc, b.allSrc...)
+		if len(b.allSrc) == 0 {
+			a.allSrc = append(a.allSrc, nil)
+		}
 	}
 	for k := range b.heaps {
 		a.heaps[k] = true
@@ -515,7 +545,7 @@ func (e *Engine) fnEffects(fn *ssa.Function, depth int) *Effects {
 	if eff, ok := e.effCache[fn]; ok {
 		if eff == nil { // recursion
 			r := newEffects()
-			r.all = true
+			r.setAll(nil)
 			return r
 		}
 		return eff
@@ -583,7 +613,7 @@ func (e *Engine) storeEffects(sc *FnCtx, v ssa.Value, eff *Effects, local bool) 
 		// opaque pointer
 		pt, ok := v.Type().Underlying().(*types.Pointer)
 		if !ok {
-			eff.all = true
+			eff.setAll(nil)
 			return
 		}
 		et := pt.Elem()
@@ -750,7 +780,23 @@ func (e *Engine) callEffects(sc *FnCtx, fn *ssa.Function, cc *ssa.CallCommon, ef
 		if isPureLibPkg(pk) || cc.Method.FullName() == "(error).Error" {
 			return
 		}
-		eff.all = true
+		if ct := e.ifaceContract(cc); ct != nil {
+			all := false
+			for _, cl := range ct.clauses("modifies") {
+				for _, l := range cl.Locs {
+					if l.Op == "ident" && l.Name == "everything" {
+						all = true
+					}
+				}
+			}
+			if !all {
+				eff.heap("alloc", allocSort)
+				return
+			}
+			eff.setAll(ct.Preserves)
+			return
+		}
+		eff.setAll(nil)
 		return
 	}
 	switch callee := cc.Value.(type) {
@@ -778,9 +824,54 @@ func (e *Engine) callEffects(sc *FnCtx, fn *ssa.Function, cc *ssa.CallCommon, ef
 		e.staticCalleeEffects(sc, callee.Fn.(*ssa.Function), eff, depth)
 		return
 	}
-	// function value: try to find the closures it may be (same function: a local variable
-	// assigned from MakeClosure only); otherwise everything
-	eff.all = true
+	// function value: the contract of its function type, if there is one
+	pf := fn
+	for pf.Pkg == nil && pf.Parent() != nil {
+		pf = pf.Parent()
+	}
+	if pf.Pkg != nil {
+		if tc := e.typeContract(cc.Value.Type(), pf.Pkg.Pkg); tc != nil {
+			eff.merge(e.typeContractEffects(tc, cc.Value.Type(), pf.Pkg.Pkg))
+			return
+		}
+	}
+	eff.setAll(nil)
+}
+
+// typeContractEffects: heap components named by a function-type contract's modifies clauses.
+func (e *Engine) typeContractEffects(tc *Contract, t types.Type, pkg *types.Package) *Effects {
+	eff := newEffects()
+	sig, ok := t.Underlying().(*types.Signature)
+	if !ok {
+		eff.setAll(nil)
+		return eff
+	}
+	sc := e.newFnCtx(nil, tc)
+	st := newState()
+	var args []Val
+	for i := 0; i < sig.Params().Len(); i++ {
+		pt := sig.Params().At(i).Type()
+		term := sc.smt.declare(fmt.Sprintf("p.arg%d", i), sc.sortOf(pt))
+		args = append(args, Val{T: pt, Term: term})
+	}
+	self := Val{T: t, Term: sc.smt.declare("self", "Int")}
+	env := sc.typeEnv(tc, pkg, sig, self, args, st)
+	ms, err := env.modSet(tc)
+	if err != nil {
+		eff.setAll(nil)
+		return eff
+	}
+	if ms.all {
+		eff.setAll(tc.Preserves)
+	}
+	for _, h := range ms.names() {
+		eff.heap(h, sc.heapSorts[h])
+	}
+	for g := range ms.ghost {
+		eff.ghost[g] = true
+	}
+	eff.heap("alloc", allocSort)
+	return eff
 }
 
 func (e *Engine) staticCalleeEffects(sc *FnCtx, callee *ssa.Function, eff *Effects, depth int) {
@@ -791,7 +882,7 @@ func (e *Engine) staticCalleeEffects(sc *FnCtx, callee *ssa.Function, eff *Effec
 	}
 	if callee.Blocks != nil && e.inScope(callee) {
 		if depth > maxInlineDepth {
-			eff.all = true
+			eff.setAll(nil)
 			return
 		}
 		eff.merge(e.fnEffects(callee, depth+1))
@@ -813,7 +904,7 @@ func (e *Engine) staticCalleeEffects(sc *FnCtx, callee *ssa.Function, eff *Effec
 		eff.heap("alloc", allocSort)
 		return
 	}
-	eff.all = true
+	eff.setAll(nil)
 }
 
 // contractEffects: heap components named by a contract's modifies clauses.
@@ -831,11 +922,13 @@ func (e *Engine) contractEffects(callee *ssa.Function, ct *Contract) *Effects {
 	env.fr = fr
 	ms, err := env.modSet(ct)
 	if err != nil {
-		eff.all = true
+		eff.setAll(nil)
 		return eff
 	}
 	if ms.all {
-		eff.all = true
+		eff.all = false
+		eff.allSrc = nil
+		eff.setAll(ct.Preserves)
 	}
 	for _, h := range ms.names() {
 		eff.heap(h, sc.heapSorts[h])
@@ -917,4 +1010,35 @@ func (e *Engine) globalInitOnlyNonNil(g *ssa.Global) bool {
 	res := ok && stores == 1
 	e.globalNN[g] = res
 	return res
+}
+
+// ifaceContract: contract attached to an interface method, keyed "(Iface).Method" in the
+// contract file of the package that declares the interface.
+func (e *Engine) ifaceContract(cc *ssa.CallCommon) *Contract {
+	n, ok := cc.Value.Type().(*types.Named)
+	if !ok || n.Obj().Pkg() == nil {
+		return nil
+	}
+	if ct := e.lib.Contracts[n.Obj().Pkg().Path()+"::("+n.Obj().Name()+")."+cc.Method.Name()]; ct != nil {
+		return ct
+	}
+	// method promoted from an embedded interface: look it up under the declaring interface
+	if cc.Method.Pkg() != nil {
+		for k, ct := range e.lib.Contracts {
+			if strings.HasPrefix(k, cc.Method.Pkg().Path()+"::(") && strings.HasSuffix(k, ")."+cc.Method.Name()) {
+				// the key names an interface of the method's package that declares this method
+				in := strings.TrimSuffix(strings.TrimPrefix(k, cc.Method.Pkg().Path()+"::("), ")."+cc.Method.Name())
+				if tn, ok := cc.Method.Pkg().Scope().Lookup(in).(*types.TypeName); ok {
+					if it, ok := tn.Type().Underlying().(*types.Interface); ok {
+						for i := 0; i < it.NumMethods(); i++ {
+							if it.Method(i) == cc.Method {
+								return ct
+							}
+						}
+					}
+				}
+			}
+		}
+	}
+	return nil
 }
